@@ -1049,7 +1049,10 @@ def apply_contract(ex, c, f, args, kwargs):
     ex.ghost.setdefault('call_args', {})[c.name] = dict(env)
     caller = ex.frames[-1].func.qualname if ex.frames and ex.frames[-1].func else '?'
     for i, r in enumerate(c.requires):
-        ex.oblige('%s/call-pre:%s#%d' % (caller, c.name, i), clause_truth(ex, r, env, mod, None, '+'),
+        rname = '#%d' % i
+        if isinstance(r, tuple):
+            rname, r = '.' + r[0], r[1]
+        ex.oblige('%s/call-pre:%s%s' % (caller, c.name, rname), clause_truth(ex, r, env, mod, None, '+'),
                   detail=r)
     for pname, rd in c.reads.items():
         lo_src, hi_src = rd[0], rd[1]
